@@ -1,5 +1,5 @@
 #!/bin/bash
-# run_matrix.sh [slots] : every seeded change against the check of the property it targets (and the neighbouring checks
+# run_matrix.sh [slots] (TARGET_ONLY=1: only the check of the targeted property): every seeded change against the check of the property it targets (and the neighbouring checks
 # recorded in its meta.json), in staging copies, <slots> at a time; results go to seeded/*/meta.json
 cd "$(dirname "$0")/.."
 SLOTS=${1:-4}
@@ -8,7 +8,7 @@ import json, glob, os
 for mp in sorted(glob.glob('seeded/*/meta.json')):
     m = json.load(open(mp))
     name = os.path.basename(os.path.dirname(mp))
-    checks = [m['property']] + [c for c in sorted(m.get('checks', {})) if c != m['property']]
+    checks = [m['property']] + ([] if os.environ.get('TARGET_ONLY') else [c for c in sorted(m.get('checks', {})) if c != m['property']])
     print(name, ' '.join(checks))
 PY
 i=0
